@@ -661,3 +661,11 @@ func (f verifPWFunc) PasswordAuthenticate(user string, password []byte) (bool, e
 func (f verifPWFunc) UpdateStorage(s simplestorage.SimpleStore) error { return nil }
 
 func timeNow() time.Time { return time.Now() }
+
+func mustPKIXDER(pub crypto.PublicKey) []byte {
+	der, err := x509.MarshalPKIXPublicKey(pub)
+	if err != nil {
+		panic(err)
+	}
+	return der
+}
